@@ -226,6 +226,11 @@ func main() {
 				orb.MultiLineString{{{1, 1}, {1, 1}}, {{2, 2}, {3, 3}, {3, 3}}},
 				orb.Polygon{{{0, 0}, {h, 0}, {h, 0}, {h, h}, {0, 0}, {0, 0}}},
 				orb.Collection{orb.Ring{{5, 5}, {5, 5}, {6, 5}, {6, 6}, {5, 5}}, orb.Point{7, 7}, orb.Bound{Min: orb.Point{1, 2}, Max: orb.Point{1, 2}}},
+				// rings of either winding, as outer ring and as hole: projecting moves vertices, it does not rewind rings
+				orb.Polygon{{{0, 0}, {0, h}, {h, h}, {h, 0}, {0, 0}}, {{2, 2}, {9, 2}, {9, 9}, {2, 9}, {2, 2}}},
+				orb.Polygon{{{0, 0}, {h, 0}, {h, h}, {0, h}, {0, 0}}, {{2, 2}, {2, 9}, {9, 9}, {9, 2}, {2, 2}}},
+				orb.MultiPolygon{{{{0, 0}, {0, 9}, {9, 9}, {0, 0}}}, {{{20, 20}, {29, 20}, {29, 29}, {20, 20}}, {{22, 21}, {28, 21}, {28, 27}, {22, 21}}}},
+				orb.Collection{orb.Polygon{{{0, 0}, {0, 9}, {9, 9}, {0, 0}}}, orb.MultiPolygon{{{{20, 20}, {29, 29}, {29, 20}, {20, 20}}}}},
 			}
 		}
 		{
